@@ -1,4 +1,4 @@
-import QV.C02.LemmasSubset
+import QV.C02.LemmasSubset3
 import QV.Shared.RenderLemmas
 /-!
 # C02 — parsed programs print to text that re-parses to the same program
@@ -27,13 +27,26 @@ fourth class, definitions nested in DEFCIRCUIT bodies, was repaired in /repo by 
 ## What is proved
 
 `C02_roundtrip_partial`: the statement for every program whose instructions all satisfy the explicit
-decidable predicate `provedKind` (34 of the 40 printable kinds: all classical instructions with literal
-operands, DECLARE with SHARING/OFFSET, control flow, MEASURE, RESET, FENCE, PRAGMA (incl. EXTERN), INCLUDE,
-HALT/NOP/WAIT, gate applications with modifiers and expression parameters, SET-FREQUENCY, SET-PHASE, SET-SCALE, SHIFT-FREQUENCY, SHIFT-PHASE,
-SWAP-PHASES, DELAY with and without frame names, RAW-CAPTURE into a region not named `i`, CAPTURE and PULSE with waveform
-invocations, CALL with identifier / memory-reference / immediate arguments where no real immediate is directly
-followed by an argument named `i`), with `≈` being equality up to the order of waveform parameters (`mapProg canonInstr`).  The remaining kinds are covered by the correspondence check
-only (every accepted text is run through the real pipeline AND the model, which must agree).
+decidable predicate `provedKind` (`QV.C02.Spec`), which covers ALL 40 printable instruction kinds:
+
+* the 34 one-line kinds (`lineKind`): all classical instructions with literal operands, DECLARE with
+  SHARING/OFFSET, control flow, MEASURE, RESET, FENCE, PRAGMA (incl. EXTERN), INCLUDE, HALT/NOP/WAIT, gate
+  applications with modifiers and expression parameters, SET-FREQUENCY, SHIFT-FREQUENCY, SET-PHASE, SHIFT-PHASE, SET-SCALE, SWAP-PHASES,
+  DELAY with and without frame names, RAW-CAPTURE into a region not named `i`, CAPTURE and PULSE with waveform
+  invocations, CALL where no real immediate is directly followed by an argument named `i`;
+* DEFWAVEFORM, DEFFRAME (string and expression attributes);
+* DEFGATE with all four specifications (MATRIX without an empty row, PERMUTATION, PAULI-SUM, SEQUENCE whose
+  qubit variables are not reserved words);
+* DEFCAL, DEFCAL MEASURE and DEFCIRCUIT whose body consists of one-line kinds (a definition nested in a body is
+  outside the proved subset; it is covered by the correspondence check and `C02_regression_nestedCircuit`).
+
+`≈` is equality up to the order of waveform parameters (`mapProg canonInstr`).  The equality is that of the
+instruction containers `Prog`; the used-qubit CACHE of the real `Program` is not part of `Prog` — for a
+redefined DEFCAL it differs after the round trip (`C02_counterexample_redefinedCalibration`, known finding).
+DEFCAL MEASURE, DEFCIRCUIT and DEFGATE print a trailing newline which the lexer merges with the program
+writer's own newline (`collapseNL`); the proof goes through `lineToks` (`QV.C02.LemmasLines`).  Everything
+outside `provedKind` is covered by the correspondence check (every accepted text is run through the real
+pipeline AND the model, which must agree).
 -/
 namespace QV.C02
 open QV QV.Tok QV.Ast QV.Parse QV.Print QV.ExprPrint
@@ -53,28 +66,27 @@ theorem C02_roundtrip_partial (F : NumFmt) (is : List Instruction)
   have hL : ∀ i ∈ (build is).listing, i ∈ is := fun i hi => mem_listing_build hi
   have herr : firstErrList (build is).listing = none :=
     firstErrList_none _ (fun i hi => firstErr_none_of_provedKind i (hp i (hL i hi)) (hk i (hL i hi)))
-  have hblock : ∀ i ∈ (build is).listing, blockOk (toks F i) = true := by
-    intro i hi
-    obtain ⟨t, r, ht, _⟩ := toks_head F i
-    exact blockOk_of_noNL _ (by rw [ht]; simp)
-      (fun t ht h => noNL_of_provedKind F i (hk i (hL i hi)) (hn i (hL i hi)) (h ▸ ht))
-  have hcollapse : collapseNL (programRaw F (build is).listing) = programRaw F (build is).listing :=
-    collapseNL_of_noAdj _ (noAdjNL_programRaw F _ hblock).1
-  have hprint : printProgramTokens F (build is).listing = .ok (programRaw F (build is).listing) := by
+  have hblock : ∀ i ∈ (build is).listing, blockOk (stripNL (toks F i)) = true :=
+    fun i hi => blockOk_lineToks F i (hp i (hL i hi)) (hk i (hL i hi)) (hn i (hL i hi))
+  -- a definition's trailing newline and the program writer's newline are ONE token
+  have hcollapse : collapseNL (programRaw F (build is).listing) = progOf (lineToks F) (build is).listing :=
+    (collapse_progOf (toks F) _ hblock).1
+  have hprint : printProgramTokens F (build is).listing = .ok (progOf (lineToks F) (build is).listing) := by
     simp [printProgramTokens, herr, hcollapse]
   have hbuild : build ((build is).listing.map canonInstr) = mapProg canonInstr (build is) := by
     rw [build_map canonInstr slotOf_canonInstr, build_listing_build]
   refine ⟨_, hprint, (build is).listing.map canonInstr, ?_, hbuild, ?_⟩
-  · exact parseProgram_programRaw F canonInstr (build is).listing
+  · exact parseProgram_progOf (lineToks F) canonInstr (build is).listing
+      (fun i hi => lineToks_head F i (hp i (hL i hi)) (hk i (hL i hi)) (hn i (hL i hi)))
       (fun i hi => rt_of_provedKind F _ i (hp i (hL i hi)) (hk i (hL i hi)) (hn i (hL i hi))
-        (length_toks_le_programRaw F _ i hi))
+        (length_e_le_progOf (lineToks F) _ i hi))
   · rw [hbuild, listing_mapProg]
     have herr' : firstErrList ((build is).listing.map canonInstr) = none :=
       firstErrList_none _ (fun j hj => by
         obtain ⟨i, hi, rfl⟩ := List.mem_map.mp hj
-        rw [firstErr_canonInstr i (hk i (hL i hi))]
+        rw [firstErr_canonInstr'' i (hk i (hL i hi))]
         exact firstErr_none_of_provedKind i (hp i (hL i hi)) (hk i (hL i hi)))
-    have hraw := programRaw_map_canon F (build is).listing (fun i hi => hp i (hL i hi)) (fun i hi => hk i (hL i hi))
+    have hraw := programRaw_map_canon'' F (build is).listing (fun i hi => hp i (hL i hi)) (fun i hi => hk i (hL i hi))
     simp [printProgramTokens, herr', hraw, hcollapse]
 
 /-- when no instruction is changed by canonicalisation (in particular: no CAPTURE / PULSE with unsorted
@@ -113,6 +125,34 @@ example : ∃ ts, printProgramTokens stdFmt (build
        .arithmetic ⟨.add, ⟨"a", 1⟩, .literalInteger (-2)⟩,
        .declaration ⟨"ro", ⟨.real, 2⟩, some ⟨"x", [⟨1, .bit⟩]⟩⟩,
        .measurement ⟨none, .fixed 0, some ⟨"ro", 0⟩⟩]).listing = .ok ts ∧
+    ∃ is', parseProgram ts = .ok is' [] :=
+  let ⟨ts, h1, is', h2, _⟩ := C02_roundtrip_partial stdFmt _ (by decide) (by decide) (by decide)
+  ⟨ts, h1, is', h2⟩
+
+/-- non-vacuity for the definition kinds: a DEFWAVEFORM with a parameter and two entries, a redefined DEFFRAME
+with a string and an expression attribute -/
+example : ∃ ts, printProgramTokens stdFmt (build
+      [.frameDefinition ⟨⟨"xy", [.fixed 0]⟩, [("DIRECTION", .string "rx")]⟩,
+       .waveformDefinition ⟨"w/a", ⟨[.var "t", .number ⟨0x3FF0000000000000, 0⟩], ["t"]⟩⟩,
+       .frameDefinition ⟨⟨"xy", [.fixed 0]⟩,
+         [("DIRECTION", .string "tx"), ("INITIAL-FREQUENCY", .expression (.number ⟨0x4000000000000000, 0⟩))]⟩,
+       .nop]).listing = .ok ts ∧
+    ∃ is', parseProgram ts = .ok is' [] :=
+  let ⟨ts, h1, is', h2, _⟩ := C02_roundtrip_partial stdFmt _ (by decide) (by decide) (by decide)
+  ⟨ts, h1, is', h2⟩
+
+/-- non-vacuity for the kinds with bodies and for DEFGATE: DEFCAL (redefined), DEFCAL MEASURE, DEFCIRCUIT, and the
+four DEFGATE specifications -/
+example : ∃ ts, printProgramTokens stdFmt (build
+      [.calibrationDefinition ⟨[], "X", [], [.fixed 0]⟩ [.gate ⟨"Y", [], [.fixed 5], []⟩, .nop],
+       .measureCalibrationDefinition ⟨some "m", .variable "q", some "dest"⟩ [.wait, .nop],
+       .circuitDefinition "C" ["a"] ["q", "r"] [.gate ⟨"RX", [.var "a"], [.variable "q"], []⟩, .halt],
+       .gateDefinition ⟨"M", [], .matrix [[.number ⟨0, 0⟩, .pi], [.var "t", .number ⟨0x3FF0000000000000, 0⟩]]⟩,
+       .gateDefinition ⟨"P", [], .permutation [0, 1, 3, 2]⟩,
+       .gateDefinition ⟨"S", ["t"], .pauliSum ⟨["p", "q"], [⟨[(.x, "p"), (.z, "q")], .var "t"⟩]⟩⟩,
+       .gateDefinition ⟨"Q", [], .sequence ⟨["a", "b"], [⟨"H", [], [.variable "a"], []⟩,
+          ⟨"CNOT", [], [.variable "a", .variable "b"], []⟩]⟩⟩,
+       .calibrationDefinition ⟨[], "X", [], [.fixed 0]⟩ [.gate ⟨"Y", [], [.fixed 6], []⟩]]).listing = .ok ts ∧
     ∃ is', parseProgram ts = .ok is' [] :=
   let ⟨ts, h1, is', h2, _⟩ := C02_roundtrip_partial stdFmt _ (by decide) (by decide) (by decide)
   ⟨ts, h1, is', h2⟩
